@@ -51,7 +51,7 @@ def TInvBody (s : State α) (m : TMon α) : Prop :=
   m.must = none ∧
   match s.ret with
   | none => s.h.consumed = false ∧ s.h.err = false ∧ m.stack = framesOf s.stack ∧
-            m.stopped = (if s.h.done then some Act.done else none)
+            m.stopped = (if s.h.done then some Stop.done else none)
   | some r => tokRes r m
 
 def TInv (v : Visitor α) (t : Tree α) (s : State α) : Prop :=
@@ -133,12 +133,12 @@ theorem iter_tinv (v : Visitor α) (t : Tree α) (s : State α) (c : Cursor α) 
     have h1h : s1.h = s.h.apply (v (s.log ++ [Ev.enter c.node])) := by rw [← hs1]; rfl
     have h1r : s1.ret = none := by rw [← hs1]; exact hret
     cases ha : v (s.log ++ [Ev.enter c.node]) with
-    | error =>
+    | error cc =>
       rw [ha] at h1h hrep
       have : s1.h.err = true := by rw [h1h]; rfl
       simp only [this, ite_true]
       exact halt_tinv v t s1 _ _ hrep (by simp [TMon.after, hmust]) (by simp [tokRes, TMon.after])
-    | done =>
+    | done cc =>
       rw [ha] at h1h hrep
       have e1 : s1.h.err = false := by rw [h1h]; exact herr
       have e2 : s1.h.done = true := by rw [h1h]; rfl
@@ -197,12 +197,12 @@ theorem iter_tinv (v : Visitor α) (t : Tree α) (s : State α) (c : Cursor α) 
       have h3r : s3.ret = none := by rw [← hs3]; exact hret
       rw [clear_log] at hrep
       cases ha : v (s.log ++ [Ev.visit c.node]) with
-      | error =>
+      | error cc =>
         rw [ha] at h3h hrep
         have : s3.h.err = true := by rw [h3h]; rfl
         simp only [this, ite_true]
         exact halt_tinv v t s3 _ _ hrep (by simp [TMon.after, hmust]) (by simp [tokRes, TMon.after])
-      | done =>
+      | done cc =>
         rw [ha] at h3h hrep
         have e1 : s3.h.err = false := by rw [h3h]; exact herr
         have e2 : s3.h.done = true := by rw [h3h]; rfl
@@ -289,17 +289,17 @@ theorem judgeRunT_generic (v : Visitor α) (t : Tree α) (r : Result) (h : (gene
   | cursorError => simp only [tokRes] at hok; simp [hok]
 
 omit [DecidableEq α] in
-theorem tafter_stopped (m0 : TMon α) (a : Act) (l : α) (b : Bool) (h1 : a ≠ .done) (h2 : a ≠ .error) :
+theorem tafter_stopped (m0 : TMon α) (a : Act) (l : α) (b : Bool) (h1 : a.stop = none) :
     (m0.after a l b).stopped = m0.stopped := by
   unfold TMon.after
   cases a with
   | «continue» => rfl
   | consume => cases b <;> rfl
-  | done => exact absurd rfl h1
-  | error => exact absurd rfl h2
+  | done cc => cases h1
+  | error cc => cases h1
 
 theorem tstep_stopped (m m' : TMon α) (a : Act) (e : Ev α) (h : m.step a e = some m')
-    (h1 : a ≠ .done) (h2 : a ≠ .error) (hm : m.stopped = none) : m'.stopped = none := by
+    (h1 : a.stop = none) (hm : m.stopped = none) : m'.stopped = none := by
   unfold TMon.step at h
   split at h
   · cases h
@@ -310,7 +310,7 @@ theorem tstep_stopped (m m' : TMon α) (a : Act) (e : Ev α) (h : m.step a e = s
       · cases h
       · split at h
         · split at h
-          · simp only [Option.some.injEq] at h; rw [← h, tafter_stopped _ _ _ _ h1 h2]; exact hm
+          · simp only [Option.some.injEq] at h; rw [← h, tafter_stopped _ _ _ _ h1]; exact hm
           · cases h
         · cases h
     | visit l =>
@@ -319,18 +319,18 @@ theorem tstep_stopped (m m' : TMon α) (a : Act) (e : Ev α) (h : m.step a e = s
       · cases h
       · split at h
         · split at h
-          · simp only [Option.some.injEq] at h; rw [← h, tafter_stopped _ _ _ _ h1 h2]; exact hm
+          · simp only [Option.some.injEq] at h; rw [← h, tafter_stopped _ _ _ _ h1]; exact hm
           · cases h
         · cases h
     | exit l =>
       simp only at h
       split at h
       · split at h
-        · simp only [Option.some.injEq] at h; rw [← h, tafter_stopped _ _ _ _ h1 h2]; exact hm
+        · simp only [Option.some.injEq] at h; rw [← h, tafter_stopped _ _ _ _ h1]; exact hm
         · cases h
       · cases h
 
-theorem treplay_never_stopped (v : Visitor α) (hv : ∀ h, v h ≠ .done ∧ v h ≠ .error) (seen L : List (Ev α))
+theorem treplay_never_stopped (v : Visitor α) (hv : ∀ h, (v h).stop = none) (seen L : List (Ev α))
     (m m' : TMon α) (h : treplay v seen L m = some m') (hm : m.stopped = none) : m'.stopped = none := by
   induction L generalizing seen m with
   | nil => simp only [treplay, Option.some.injEq] at h; rw [← h]; exact hm
@@ -340,6 +340,6 @@ theorem treplay_never_stopped (v : Visitor α) (hv : ∀ h, v h ≠ .done ∧ v 
     | none => simp [hs] at h
     | some m1 =>
       simp only [hs] at h
-      exact ih _ _ h (tstep_stopped m m1 _ e hs (hv _).1 (hv _).2 hm)
+      exact ih _ _ h (tstep_stopped m m1 _ e hs (hv _) hm)
 
 end Dawgs.C11
